@@ -138,12 +138,12 @@ func (m *MTU) marshal() ([]byte, error) {
 
 func (m *MTU) unmarshal(b []byte) error {
 	// t := b[0]
-	l := int(b[1]*8) - 2 // Exclude type and length fields from value's length.
+	l := int(b[1])*8 - 2 // Exclude type and length fields from value's length.
 	if l != 6 {
 		return fmt.Errorf("ndp: unexpected mtu option length: %d", l)
 	}
 
-	*m = MTU(binary.BigEndian.Uint32(b[2:6]))
+	*m = MTU(binary.BigEndian.Uint32(b[4:8])) // type, length, 2 reserved bytes, MTU
 
 	return nil
 }
